@@ -98,6 +98,7 @@ def main(argv):
     nontrivial = set()
     tie_breaks = []
     oracle_fails = []
+    qsummaries = []
     try:
         if pb["stage"] in ("tables", "build") and not os.path.exists(modelio.DRIVER):
             log("[T] no driver binary: correspondence cannot run")
@@ -108,7 +109,7 @@ def main(argv):
                 r = json.load(open(rp))
                 for flavor in ([r["flavor"]] if r.get("flavor") in ("sync", "async") else spec["flavors"]):
                     st, obs = core._impl_worker((flavor, r["case"], 20))
-                    probs = props.run_oracles(prop, r["case"], st, obs, flavor)
+                    probs = props.run_oracles(prop, r["case"], st, obs, flavor, replay=True)
                     if f in fixed_f and probs:
                         violations.append({"kind": "regression-of-fixed-finding", "finding": f["id"], "flavor": flavor,
                                            "case": r["case"], "problems": probs[:3]})
@@ -122,16 +123,18 @@ def main(argv):
                 # ---- O
                 probs = props.run_oracles(prop, case, ist, iobs, flavor)
                 if probs:
-                    matched = None
-                    for f in open_f:
-                        if all(classify(f, p, case, flavor) for p in probs):
-                            matched = f
-                            break
-                    if matched:
-                        known_hits[matched["id"]] = matched
-                        stats["known_finding_cases"] += 1
+                    # every problem must be explained by SOME open finding, else the case is a violation
+                    unexplained = []
+                    for p in probs:
+                        f = next((f for f in open_f if classify(f, p, case, flavor)), None)
+                        if f is None:
+                            unexplained.append(p)
+                        else:
+                            known_hits[f["id"]] = f
+                    if unexplained:
+                        oracle_fails.append((flavor, case, unexplained))
                     else:
-                        oracle_fails.append((flavor, case, probs))
+                        stats["known_finding_cases"] += 1
                 # ---- T
                 if ist == "ok" and mres[0] == "ok":
                     cut = oracles.first_illegal(case, iobs)
@@ -158,6 +161,22 @@ def main(argv):
                 else:
                     stats["model_reject"] += 1
                     tie_breaks.append((flavor, case, {"step": -1, "fields": ["reject"], "impl": ist, "model": mres[1]}))
+            # ---- function-level correspondence checks (Q queries) with their own monitors
+            qsummaries = []
+            for qfn in spec.get("q_checks", []):
+                qr = qfn(tier, seed)
+                stats["evaluations"] += qr["evaluations"]
+                stats["traces_validated_against_impl"] += qr["evaluations"] - len(qr["ties"])
+                stats["q_nontrivial"] += qr["nontrivial"]
+                qsummaries.append({"check": qfn.__name__, "what": qr["what"], "evaluations": qr["evaluations"],
+                                   "disagreements": len(qr["ties"]), "monitor_failures": len(qr["fails"]), "exhaustive": qr["exhaustive"]})
+                for smp in qr["samples"][:2]:
+                    if len(samples) < 5:
+                        samples.append({"query": qfn.__name__, **smp})
+                for t in qr["ties"][:50]:
+                    tie_breaks.append(("query", {"id": qfn.__name__, "query": t}, t))
+                for f in qr["fails"][:50]:
+                    oracle_fails.append(("query", {"id": qfn.__name__, "query": f}, [f]))
     finally:
         core.close_pool()
 
@@ -170,19 +189,31 @@ def main(argv):
         path = core.write_replay(prop, f"regress_{v['finding']}", v)
         out_lines.append(f"VIOLATION property={prop} replay={path}")
         exit_code = 1
-    if oracle_fails:
+    if oracle_fails and oracle_fails[0][0] == "query":
         flavor, case, probs = oracle_fails[0]
-        small = shrink.shrink_case(case, lambda c: bool(props.run_oracles(prop, c, *core._impl_worker((flavor, c, 10)), flavor)), budget=120)
-        st, obs = core._impl_worker((flavor, small, 10))
+        path = core.write_replay(prop, "oracle", {"property": prop, "kind": "property-monitor-failed-on-implementation", "flavor": "query",
+                                               "query": case, "problems": probs[:5], "count": len(oracle_fails)})
+        out_lines.append(f"VIOLATION property={prop} replay={path}")
+        exit_code = 1
+    elif oracle_fails:
+        flavor, case, probs = oracle_fails[0]
+        def unexplained_of(c):
+            st_, obs_ = core._impl_worker((flavor, c, 10))
+            return [p for p in props.run_oracles(prop, c, st_, obs_, flavor)
+                    if not any(classify(f, p, c, flavor) for f in open_f)]
+        small = shrink.shrink_case(case, lambda c: bool(unexplained_of(c)), budget=120)
         path = core.write_replay(prop, "oracle", {"property": prop, "kind": "property-monitor-failed-on-implementation", "flavor": flavor,
-                                               "case": small, "problems": props.run_oracles(prop, small, st, obs, flavor)[:5],
+                                               "case": small, "problems": unexplained_of(small)[:5],
                                                "original_case_id": case.get("id"), "count": len(oracle_fails)})
         out_lines.append(f"VIOLATION property={prop} replay={path}")
         exit_code = 1
     broken = []
     if not pb["ok"]:
         broken.append({"obligation": "P", "stage": pb["stage"], "log": pb["log"][-2500:], "failed_at": pb.get("failed_at")})
-    if tie_breaks:
+    if tie_breaks and tie_breaks[0][0] == "query":
+        flavor, case, d = tie_breaks[0]
+        broken.append({"obligation": "T", "correspondence": "query/" + case["id"], "count": len(tie_breaks), "first_difference": d})
+    elif tie_breaks:
         flavor, case, d = tie_breaks[0]
         def still(c):
             st, obs = core._impl_worker((flavor, c, 10))
@@ -219,7 +250,8 @@ def main(argv):
                          "hand-written model lean/Xsm/Model/*.lean"],
         "theorems": pb["theorems"], "axioms": pb["axioms"],
         "evaluations": stats["evaluations"],
-        "distinct_nontrivial": len(nontrivial),
+        "distinct_nontrivial": len(nontrivial) + stats["q_nontrivial"],
+        "function_level_checks": qsummaries,
         "rule": "generated machine x guard valuation x event list per engine; distinct by digest of (machine, valuation, events, engine); non-trivial = at least one event after start produced a trace record and model and implementation agreed on the whole run",
         "traces_validated_against_impl": stats["traces_validated_against_impl"],
         "tie_disagreements": len(tie_breaks),
